@@ -10,8 +10,8 @@ from .drive import Session, _flat, _shape_list
 from .mdl import add, const, mkfunc, mul, q, var
 
 RENAME = {"w": "wealth", "z": "zeta", "h": "health", "e": "educ", "r": "region", "a": "act", "b": "bonus_choice", "c": "cons",
-          "d": "dep", "k": "kappa", "m": "mu", "kb": "kbase", "inc": "income", "bonus": "extra",
-          "m_filter": "reg_filter", "s_filter": "adm_filter", "bc_constraint": "budget_constraint",
+          "d": "dep", "k": "kappa", "m": "mu", "kb": "kbase", "inc": "income", "bonus": "extra", "tot": "total", "kt": "ktot",
+          "m_filter": "reg_filter", "s_filter": "adm_filter", "c_filter": "act_filter", "bc_constraint": "budget_constraint",
           "d_constraint": "limit_constraint", "pos_constraint": "floor_constraint", "utility": "utility"}
 
 
@@ -36,6 +36,8 @@ def _rename_expr(e):
         return e
     if e[0] == "tab":
         return ["tab", [_rn(x) for x in e[1]], e[2]]
+    if e[0] == "ssum":
+        return ["ssum", *[_rename_expr(x) for x in e[1:]]]
     return [e[0], *[_rename_expr(x) for x in e[1:]]]
 
 
